@@ -478,8 +478,8 @@ struct SlabEngine : Engine {
 		Region *r = find_region(o);
 		if (!r || o + n > r->base + r->len)
 			violation("pool_touches_unmapped_byte", "pool code %s +0x%llx (%zu bytes) which is not inside memory currently mapped by the policy", write ? "writes" : "reads", (unsigned long long)o, n);
-		if (pi.poison && memchr(pshadow + o, 1, n)) {
-			size_t i = (uint8_t *)memchr(pshadow + o, 1, n) - (pshadow + o);
+		if (pi.poison && ps_any(o, n, 1)) {
+			size_t i = 0; while (i < n && !ps_any(o + i, 1, 1)) i++;
 			violation("pool_touches_poisoned_byte", "pool code %s %zu byte(s) at +0x%llx; byte +%zu is poisoned (region +0x%llx)", write ? "writes" : "reads", n, (unsigned long long)o, i, (unsigned long long)r->base);
 		}
 		if (write) {
@@ -524,7 +524,7 @@ struct SlabEngine : Engine {
 				tail_state = r == w ? 1 : -1;
 				if (r != w && r != MAP_FAILED) munmap(r, TAIL_SIZE);
 			}
-			tail_ok = tail_state == 1;
+			tail_ok = tail_state == 1; aux_bytes = tail_ok ? TAIL_SIZE : 0;
 			if (tail_ok && tail_dirty) { mmap(arena + arena_size, TAIL_SIZE, PROT_NONE, MAP_PRIVATE | MAP_ANONYMOUS | MAP_NORESERVE | MAP_FIXED, -1, 0); tail_dirty = false; }
 			tail_top = arena_size + (1 << 20); tail_unpoisoned.clear(); tail_faults = 0;
 		}
